@@ -79,6 +79,42 @@ def run_all(ctx, tier):
                                   {'program': src, 'compress': c, 'seed': hs, 'got': got, 'base': base[(i, c)]}, confirmed=True)
                     break
         rc.close()
+    include_order(ctx, tier)
+
+
+def include_order(ctx, tier):
+    """the same file name in two -i directories and next to the source: the pick must not depend on the hash seed"""
+    import shutil
+    import tempfile
+    root = tempfile.mkdtemp(prefix='bbpur_')
+    try:
+        dirs = [os.path.join(root, n) for n in ('lib', 'vendor', 'third', 'src')]
+        for i, d in enumerate(dirs):
+            os.makedirs(d)
+            open(os.path.join(d, 'common.asm'), 'w').write('common%d:\n    addi x8, x8, %d\n' % (i, i + 1))
+            open(os.path.join(d, 'table.bin'), 'wb').write(bytes([i + 1] * 4))
+        main = os.path.join(dirs[3], 'main.asm')
+        open(main, 'w').write('start:\ninclude common.asm\ninclude_bytes table.bin\n    j start\n')
+        outs = {}
+        for hs in range(12 if tier == 'quick' else 40):
+            os.environ['PYTHONHASHSEED'] = str(hs)
+            try:
+                rc = R.RealCode()
+            finally:
+                os.environ.pop('PYTHONHASHSEED', None)
+            got = strip(rc.assemble(main, include_dirs=dirs[:3]))
+            rc.close()
+            ctx.b_eval('purity', ('include-order', hs), nontrivial=True, sample={'hashseed': hs, 'result': str(got.get('ok'))})
+            if 'ok' not in got:
+                ctx.errors.append('purity harness: the include-order program does not assemble: %s' % str(got)[:200]) if hasattr(ctx, 'errors') else None
+                return
+            outs.setdefault(str(got), []).append(hs)
+        if len(outs) > 1:
+            ctx.violation('bounded/purity/hashseed', 'hash-seed-dependent:include-search', 'which of several same-named include files is picked depends on '
+                          'PYTHONHASHSEED: %d different results over %d seeds' % (len(outs), sum(len(v) for v in outs.values())),
+                          {'results': {k[:100]: v for k, v in outs.items()}, 'tree': 'common.asm / table.bin in lib, vendor, third (all -i) and next to main.asm'}, confirmed=True)
+    finally:
+        shutil.rmtree(root, ignore_errors=True)
 
 
 def replay(ctx, d, model):
